@@ -2634,7 +2634,13 @@ ZSTD_reduceTable_internal (U32* const table, U32 const size, U32 const reducerVa
         __CPROVER_decreases(nbRows - rowNb))
     {
         int column;
-        for (column=0; column<ZSTD_ROWSIZE; column++) {
+        for (column=0; column<ZSTD_ROWSIZE; column++)
+        ZSTD_VERIF_LOOP(
+            __CPROVER_assigns(column, cellNb, __CPROVER_object_whole(table))
+            __CPROVER_loop_invariant(0 <= column && column <= ZSTD_ROWSIZE && cellNb == rowNb * ZSTD_ROWSIZE + column
+                                  && ZSTD_VERIF_GHOST_CELL_INV(table, size, cellNb))
+            __CPROVER_decreases(ZSTD_ROWSIZE - column))
+        {
             U32 newVal;
             if (preserveMark && table[cellNb] == ZSTD_DUBT_UNSORTED_MARK) {
                 /* This write is pointless, but is required(?) for the compiler
